@@ -202,6 +202,10 @@ def gen_world(rs: int, P: dict) -> dict:
                     cap += abs(coeffs[s["id"]]) * (mx if mx is not None else 40)
             frac = rc.uniform(*P["binding"])
             limit = max(1.0, round(cap * frac, rc.choice([0, 1, 3])))
+            if ckind == "single" and rc.random() < 0.12:
+                mems_ = [s for s in stations if s["id"] in coeffs and evse_max(s["evse"]) is not None]
+                if mems_:
+                    limit = float(sum(evse_max(s["evse"]) for s in rc.sample(mems_, rc.randint(1, len(mems_)))))   # exactly a sum of maxima
             cons.append({"name": "c%d" % j, "coeffs": coeffs, "limit": limit})
         if rc.random() < 0.06:
             # a constraint that loads nobody (a spare feeder: every coefficient 0): it can never bind, and it is still part of
@@ -336,6 +340,22 @@ def gen_world(rs: int, P: dict) -> dict:
             if cand:
                 s["session_id"] = cand[0]
                 used.add(cand[0])
+    rtw = sub(rs, "twins")
+    if rtw.random() < 0.06 and P["net"] != "stochastic":
+        # two sessions on different stations that are identical in every number (same arrival, stay, request, battery)
+        firsts_ = {}
+        for s_ in sorted(sessions, key=lambda z: (z["arrival"], z["session_id"])):
+            firsts_.setdefault(s_["station"], s_)
+        if len(firsts_) >= 2:
+            a_, b_ = rtw.sample(sorted(firsts_.values(), key=lambda z: z["session_id"]), 2)
+            later_b = [x_ for x_ in sessions if x_["station"] == b_["station"] and x_ is not b_]
+            if all(x_["arrival"] >= a_["departure"] for x_ in later_b):
+                for k_ in ("arrival", "departure", "energy"):
+                    b_[k_] = a_[k_]
+                b_["battery"] = copy.deepcopy(a_["battery"])
+                b_.pop("est_departure", None)
+                if "est_departure" in a_:
+                    b_["est_departure"] = a_["est_departure"]
     if sid_mode == "numeric":
         # session ids that look like numbers (leading zeros, one a numeric prefix of another); they are strings
         pool = ["1001", "0007", "7", "007", "10", "1", "1e3", "0", "-1", "3.0", "12", "0012"]
@@ -440,6 +460,10 @@ def _mk_session(rs, sid, station, a, d, stations, period, P):
     deliverable = mx * v / 1000.0 * (period / 60.0) * (d - a)
     energy = max(1e-3 * 5, deliverable * rb.uniform(*P["demand"]))
     energy = round(energy, 4)
+    rco = sub(rs, "coincidence", sid)
+    if rco.random() < 0.08 and d - a >= 1:
+        # a request that is exactly k periods at the station's maximum pilot (remaining demand hits 0 exactly at a period end)
+        energy = mx * v / 1000.0 * (period / 60.0) * rco.randint(1, d - a)
     if P.get("zero_demand", 0) and sub(rs, "zero_demand", sid).random() < P["zero_demand"]:
         energy = sub(rs, "zero_demand2", sid).choice([0.0, 5e-4, 1e-3])
     kind = wchoice(rb, P["battery"])
@@ -455,6 +479,8 @@ def _mk_session(rs, sid, station, a, d, stations, period, P):
         b["transition_soc"] = rb.choice([0.8, 0.8, 0.0, 0.5, 0.999, round(rb.uniform(0, 0.99), 3)])
         b["calc"] = "continuous" if kind == "l2c" else "stepwise"
         b["noise"] = round(rb.uniform(0.01, 2.0), 3) if rb.random() < P["noise"] else 0
+        if rco.random() < 0.06 and 0 < b["transition_soc"] < 1:
+            b["init"] = b["transition_soc"] * cap_total        # starts exactly at the transition state of charge
     s = {"session_id": sid, "station": station, "arrival": a, "departure": d, "energy": energy, "battery": b}
     if rb.random() < P["est_dep_diff"]:
         s["est_departure"] = max(a + 1, d + rb.randint(-3, 3))
